@@ -731,6 +731,10 @@ def labels(C) -> None:
         C.unsure(r3, "one label per node", "the value handed to the backend as 'labels' was not identified")
         return
     mode, roots = label_roots(M, C.label_value)
+    outside = _outside_mapping(C, C.label_value)
+    if outside is not None:
+        C.res.add("C17.R6", C.base + "label mapping", False, f"the labels are accumulated in `{outside}`, an object that outlives the call: labels of earlier visualize calls (other aliases, other graphs) stay in it", M.where(C.label_store) if C.label_store is not None else "", kind="effect")
+        return
     if not roots:
         C.unsure(r3, "one label per node", f"the labels handed to the backend (`{norm(C.label_value, 60)}`) are not a mapping built in the flattened draw()", C.label_store)
         return
@@ -790,6 +794,27 @@ def labels(C) -> None:
             C.unsure(r1, "label shape", "no store of a label built from an alias was found in the flattened draw()", C.label_store)
         return
     _rule_aliased(C, aliased, events, label_names)
+
+
+def _outside_mapping(C, e: ast.expr) -> str | None:
+    """The mapping handed over as labels is (an alias of) a module-level object or an attribute of the graph object."""
+    M: Model = C.M
+    for _ in range(8):
+        if isinstance(e, ast.Name):
+            bs = M.binds.get(e.id, [])
+            if not bs:
+                mod = C.draw.module
+                if e.id in mod.constants or e.id in getattr(mod, "imports", {}):
+                    return e.id
+                return None
+            if len(bs) == 1 and bs[0].kind == "assign" and isinstance(bs[0].value, (ast.Name, ast.Attribute)):
+                e = bs[0].value
+                continue
+            return None
+        if isinstance(e, ast.Attribute) and isinstance(e.value, ast.Name) and e.value.id == M.selfname:
+            return norm(e)
+        return None
+    return None
 
 
 def label_roots(M: Model, e: ast.expr, depth: int = 0) -> tuple[str, list[str]]:
